@@ -1253,7 +1253,7 @@ static mi_segment_t* mi_segment_reclaim(mi_segment_t* segment, mi_heap_t* heap, 
       _mi_stat_decrease(&tld->stats->pages_abandoned, 1);
       segment->abandoned--;
       // get the target heap for this thread which has a matching heap tag (so we reclaim into a matching heap)
-      mi_heap_t* target_heap = _mi_heap_by_tag(heap, page->heap_tag);  // allow custom heaps to separate objects
+      mi_heap_t* target_heap = _mi_heap_by_tag(heap, page->heap_tag, segment->memid);  // allow custom heaps to separate objects
       if (target_heap == NULL) {
         target_heap = heap;
         _mi_error_message(EFAULT, "page with tag %u cannot be reclaimed by a heap with the same tag (using heap tag %u instead)\n", page->heap_tag, heap->tag );
